@@ -180,8 +180,34 @@ func OsRemove(name string) error {
 	return os.Remove(name)
 }
 
+// CrossDevice, when set, is the run's map of file-system boundaries: it tells whether oldpath and
+// newpath lie in different (simulated) file systems. It is part of the ENVIRONMENT of a run, not a
+// fault: it is consulted by the rename and hard-link shims whether or not a fault plan is installed,
+// and such an operation fails the way the kernel makes it fail (EXDEV in an *os.LinkError) without
+// touching the files. The sandbox of a run is one real file system, so without this a deployment
+// whose temp directory is a tmpfs cannot be told from one where everything shares a disk.
+// Reset before every run (RunOne); set by the check body (SetCrossDevice).
+var CrossDevice func(oldpath, newpath string) bool
+
+// SetCrossDevice installs the file-system boundaries of the current run (nil: one file system).
+func SetCrossDevice(fn func(oldpath, newpath string) bool) { CrossDevice = fn }
+
+// CrossDeviceErr returns the error of a rename or link (op) from oldpath to newpath when the two
+// lie in different simulated file systems, nil otherwise. Harness file systems (afero wrappers)
+// call it for their own Rename so that both routes to the disk agree.
+func CrossDeviceErr(op, oldpath, newpath string) error {
+	if active() == nil || CrossDevice == nil || !CrossDevice(oldpath, newpath) {
+		return nil
+	}
+	Hit("cross-device:" + op)
+	return &os.LinkError{Op: op, Old: oldpath, New: newpath, Err: syscall.EXDEV}
+}
+
 func OsRename(oldpath, newpath string) error {
 	if err := FSOp("rename", oldpath+" -> "+newpath); err != nil {
+		return err
+	}
+	if err := CrossDeviceErr("rename", oldpath, newpath); err != nil {
 		return err
 	}
 	return os.Rename(oldpath, newpath)
@@ -189,6 +215,9 @@ func OsRename(oldpath, newpath string) error {
 
 func OsLink(oldname, newname string) error {
 	if err := FSOp("link", oldname+" -> "+newname); err != nil {
+		return err
+	}
+	if err := CrossDeviceErr("link", oldname, newname); err != nil {
 		return err
 	}
 	return os.Link(oldname, newname)
